@@ -137,6 +137,16 @@ def oracle_C02(inp):
         except BaseException as e:  # noqa
             return ["Sid(Sid(%r)) raised %s: %s" % (pre, type(e).__name__, e)]
     x = Sid(s)
+    try:      # whatever a caller does to the dictionary `fields` hands out is the caller's business
+        f0 = x.fields
+        for k0 in list(f0)[-1:]:
+            f0[k0] = "edited"
+        f0["injected"] = "x"
+        if len(f0) > 2:
+            f0[list(f0)[0]] = f0.pop(list(f0)[0])      # re-ordered in place
+    except BaseException as e:  # noqa
+        return ["editing the dictionary returned by .fields raised %s" % type(e).__name__]
+    x = Sid(s)
     if inp.get("pre") and x and ":" not in s and "?" not in s and not natural(x):
         return ["after Sid(Sid(%r)), the plain string %r is typed %r, not by its first accepting template" % (inp["pre"], s, x.type)]
     if not x or ":" in s or "?" in s or not natural(x):
@@ -189,6 +199,13 @@ def oracle_C03(inp):
     s = inp["s"]
     out = []
     x = Sid(s)
+    if inp.get("via_path"):      # the same Sid as Finders build it: from its path in a path configuration
+        p0 = x.path(inp["via_path"]) if x else None
+        if p0 is None:
+            return []
+        x = Sid(path=p0, config=inp["via_path"])
+        if not x:
+            return []
     if "?" in s:
         return []
     if not x:
@@ -395,6 +412,18 @@ def oracle_C14(inp):
         cf["project"] = "mutated"
     except SpilException:
         pass
+    # Python's own copy / pickle protocols are public operations too: they give equal Sids and change nothing
+    try:
+        import copy as _copy, pickle as _pickle
+        empty_before = (str(Sid()), Sid().type, bool(Sid()))
+        for how, z in (("copy.copy", _copy.copy(a)), ("copy.deepcopy", _copy.deepcopy(a)), ("pickle", _pickle.loads(_pickle.dumps(a))),
+                       ("deepcopy of a list", _copy.deepcopy([a, b])[0])):
+            if (str(z), z.type, list(z.fields.items())) != (before[0], before[1], before[2]):
+                out.append("%s of %r gives %r" % (how, inp["a"], (str(z), z.type, list(z.fields.items()))))
+        if (str(Sid()), Sid().type, bool(Sid())) != empty_before or str(Sid()) != "":
+            out.append("after copying %r the empty Sid is %r" % (inp["a"], (str(Sid()), Sid().type, bool(Sid()))))
+    except BaseException as e:  # noqa
+        out.append("copy / pickle of %r raised %s: %s" % (inp["a"], type(e).__name__, e))
     # a dictionary handed to Sid(fields=...) stays the caller's: changing it later changes no Sid
     if a and a.type:
         for order in ("template", "reversed"):
